@@ -46,9 +46,19 @@ type c11Ctx struct {
 	done chan struct{}
 	mu   sync.Mutex
 	err  error
+	dl   bool // the context carries a deadline (far away: the driver, not a timer, ends it)
 }
 
-func (c *c11Ctx) Deadline() (time.Time, bool) { return time.Time{}, false }
+// every other request runs under a context with a deadline, as queries and provides do: the
+// per-exchange read timeout must not depend on it
+func (c *c11Ctx) Deadline() (time.Time, bool) {
+	if c.dl {
+		return c11Epoch.Add(1000 * time.Hour), true
+	}
+	return time.Time{}, false
+}
+
+var c11Epoch = time.Now()
 func (c *c11Ctx) Done() <-chan struct{}       { return c.done }
 func (c *c11Ctx) Err() error {
 	c.mu.Lock()
@@ -641,7 +651,7 @@ func c11Case(t *testing.T, rnd *vfRand, i int, partial **c11Run) (r *c11Run, pro
 		if rnd.Chance(prof.msgPct) {
 			k = "msg"
 		}
-		r.calls[c] = &c11Call{peer: rnd.Intn(prof.npeers), kind: k, ctx: &c11Ctx{id: c, done: make(chan struct{})}}
+		r.calls[c] = &c11Call{peer: rnd.Intn(prof.npeers), kind: k, ctx: &c11Ctx{id: c, done: make(chan struct{}), dl: c%2 == 1}}
 	}
 	next := 0
 	allDone := func() bool {
